@@ -44,13 +44,63 @@ def plans(b, quick):
     return out
 
 
+def start_recorded_tests(wd):
+    """the repository's own end-to-end tests under harness/recorder.py with lifecycle events switched on"""
+    import subprocess
+    import sys
+    import copulas
+    src = os.path.dirname(os.path.dirname(os.path.abspath(copulas.__file__)))
+    d = os.path.join(wd, 'rec')
+    os.makedirs(d)
+    os.symlink(os.path.join(src, 'copulas'), os.path.join(d, 'copulas'))
+    for name in ('tests', 'data', 'pyproject.toml'):
+        if os.path.exists(os.path.join('/repo', name)):
+            os.symlink(os.path.join('/repo', name), os.path.join(d, name))
+    trace = os.path.join(wd, 'life.json')
+    env = dict(os.environ, COPULAS_VERIF='1', COPULAS_VERIF_LIFE=trace, PYTHONPATH=d + os.pathsep + T.VERIF)
+    env.pop('COPULAS_VERIF_TRACE', None)
+    proc = subprocess.Popen([sys.executable, '-m', 'pytest', '-q', '-p', 'no:cacheprovider', '-p', 'harness.recorder', 'tests/end-to-end'],
+                            cwd=d, env=env, stdout=subprocess.DEVNULL, stderr=subprocess.DEVNULL)
+    return proc, trace
+
+
+def finish_recorded_tests(ctx, proc, trace):
+    import json
+    try:
+        proc.wait(timeout=1500)
+    except Exception:
+        proc.kill()
+    if not os.path.exists(trace):
+        ctx.extra['recorded_repo_tests'] = 'not available (pytest run produced no trace)'
+        return
+    with open(trace) as f:
+        log = json.load(f)
+    ctx.extra['recorded_lifecycle_events_in_repo_tests'] = len(log)
+    ctx.extra['recorded_objects'] = len({e['o'] for e in log})
+    if not log:
+        return
+    r = T.run('LifeTrace', 'SPECIFICATION Spec\nINVARIANT TraceChecked\nCHECK_DEADLOCK FALSE\n', workers=1, env={'TRACE_FILE': trace}, timeout=600)
+    ctx.note_tlc('LifeTrace', r)
+    v = r.tagged('VERDICT')
+    if not v:
+        raise T.TlcError('LifeTrace: no verdict\n' + r.raw[-1500:])
+    ctx.traces += 1
+    for line, clauses in v[0][0]:
+        e = log[line - 1]
+        for cl in clauses:
+            ctx.violation('C19|recorded:%s|%s|%s' % (e['cls'], cl, e['name']),
+                          '%s during the repository test %s (%s.%s, state %s -> %s, %s)' % (cl, e['test'], e['cls'], e['name'], e['l0'], e['l1'], 'raised ' + e['err'] if e['err'] else 'returned'), e)
+
+
 def run(ctx):
     quick = ctx.tier == 'quick'
+    recwd = T.workdir()
+    recproc, rectrace = start_recorded_tests(recwd)
     ctx.rule = ('TLC enumerates every behaviour of Session over the lifecycle alphabet (New, Fit on every data kind incl. '
                 'constant / NaN / empty / non-numeric, Query, Sample, GetInstance) up to the tier bound for every class '
                 'binding and constructor option set; each is executed on real objects (constructor, get_instance by class '
                 'and by name); a case is one (binding, construction form, behaviour); non-trivial = contains a Fit; '
-                'distinct by content')
+                'distinct by content; plus the lifecycle clauses (LifeTrace) on every public call the repository\'s own end-to-end tests make (out-of-tree recorder)')
     ctx.assumptions = ['observable behaviour = class, to_dict, pdf/cdf/ppf (or density/likelihood) on a fixed probe set '
                        'and the sample of a re-seeded deep copy, compared with rtol 1e-9',
                        'vine fits are preceded by an allocator poison whose value cycles, so dependence on '
@@ -74,7 +124,15 @@ def run(ctx):
             if i > 0:
                 pl = pl[1:] if quick else pl     # other construction forms: prototype plan only in the quick tier
             want.append((b.name, v, pl))
-    SJ.run_session_jobs(ctx, 'C19', want, 'harness.props.C19', ('Fit',))
+    try:
+        SJ.run_session_jobs(ctx, 'C19', want, 'harness.props.C19', ('Fit',))
+        # code -> spec on executions this framework did not design: the lifecycle clauses on every public call of the repository's end-to-end tests
+        finish_recorded_tests(ctx, recproc, rectrace)
+    finally:
+        import shutil
+        if recproc.poll() is None:
+            recproc.kill()
+        shutil.rmtree(recwd, ignore_errors=True)
     ctx.exhaustive = False
 
 
